@@ -61,7 +61,7 @@ def canon(values):
 
 # =============================================================================== strategy
 @st.composite
-def program_strategy(draw, max_ops=30):
+def program_strategy(draw, max_ops=30, removal_heavy=False):
     idx = st.integers(0, 20)
     vals = st.lists(st.one_of(st.integers(-20, 20), st.none()), min_size=0, max_size=8)
     name = st.sampled_from(NAME_POOL)
@@ -88,6 +88,13 @@ def program_strategy(draw, max_ops=30):
         (1, st.just({"op": "group"})),
         (3, st.just({"op": "reopen"})),
     ]
+    if removal_heavy:  # C05: removals of data / holes / tables and refused removals of protected location data
+        weighted += [
+            (5, st.fixed_dictionaries({"op": st.just("remove_data"), "data": idx, "via": st.sampled_from(["ws", "parent"])})),
+            (4, st.fixed_dictionaries({"op": st.just("remove_hole"), "hole": idx, "via": st.sampled_from(["ws", "parent"])})),
+            (3, st.fixed_dictionaries({"op": st.just("remove_pg"), "pg": idx})),
+            (4, st.fixed_dictionaries({"op": st.just("remove_protected"), "hole": idx, "which": idx})),
+        ]
     pool = [s for w, s in weighted for _ in range(w)]
     n_ops = draw(st.integers(1, max_ops))
     ops = [{"op": "hole", "group": 0, "name": "h"}]
@@ -148,6 +155,7 @@ class ConcatRun:
     def __init__(self, program, res, pid="C04"):
         self.p, self.res, self.pid = program, res, pid
         self.groups: list = []
+        self.gone_uids = []
         self.paths: list = []
         self.wss: list = []
         self.stopped = False
@@ -346,6 +354,8 @@ class ConcatRun:
         new = op["name"]
         if new in hole.names():
             return False
+        if self.pid != "C04":
+            return False  # renaming is a C04 operation (open finding there)
         if not self.p.get("allow_known") and GUARDS["rename_data"]:
             self.res.count("excluded_by_finding")
             return False
@@ -374,6 +384,7 @@ class ConcatRun:
             self.fail("data-lost", "remove_data", table.data[name]["kind"], "", f"{name} not found")
             return True
         kind = table.data[name]["kind"]
+        table_data_uid = str(data[0].uid)
         if op["via"] == "ws":
             self.call(kind, self.ws().remove_entity, data[0])
         else:
@@ -382,6 +393,8 @@ class ConcatRun:
         if not table.data:
             hole.tables.remove(table)  # the table disappears with its last data set
         self.res.label("remove_data:" + op["via"] + (":last-of-table" if not table.data else ""))
+        self.removal_seen = True
+        self.gone_uids.append((kind, table_data_uid))
         self.note_shared(name, hole)
         del data, ent
         gc.collect()
@@ -405,11 +418,23 @@ class ConcatRun:
         grp.holes.remove(hole)
         self.res.label(f"remove_hole:{op['via']}:" + ("middle" if 0 < pos < len(grp.holes) else "end"))
         self.removed_hole = True
+        self.removal_seen = True
+        self.gone_uids.append(("Drillhole", hole.uid))
         del ent
         gc.collect()
         return True
 
     removed_hole = False
+    gone_uids: list = []
+
+    def check_gone(self, opkind, where):
+        """Lookups by identifier must not yield a removed concatenated entity (C05)."""
+        gc.collect()
+        for kind, uid in self.gone_uids:
+            ent = self.ws().get_entity(uuid.UUID(uid))[0]
+            if ent is not None:
+                self.fail("lookup-yields-removed", opkind, kind, where, f"get_entity({uid}) still returns {type(ent).__name__}")
+                return
 
     def op_remove_pg(self, op):
         cands = [(g, h, t) for g, h in self.all_holes() for t in h.tables]
@@ -427,6 +452,39 @@ class ConcatRun:
         del pg, ent
         gc.collect()
         return True
+
+    def op_remove_protected(self, op):
+        """workspace.remove_entity on a location data set (allow_delete=False) must be refused and change nothing."""
+        cands = [(g, h) for g, h in self.all_holes() if h.tables]
+        pick = self.pick(cands, op["hole"])
+        if pick is None:
+            return False
+        grp, hole = pick
+        names = [n for t in hole.tables for n in t.loc_names]
+        name = self.pick(names, op["which"])
+        ent = self.ent(hole.uid)
+        data = ent.get_data(name)
+        if not data:
+            self.fail("data-lost", "remove_protected", "location", "", f"{name} of hole {hole.name} not found")
+            return True
+        if data[0].allow_delete:
+            return False
+        raised = False
+        try:
+            self.ws().remove_entity(data[0])
+        except Exception:
+            raised = True
+        self.res.label("remove_protected")
+        self.removal_seen = True
+        if not raised:
+            self.fail("refusal-missing", "remove_ws", "location", "allow_delete=False",
+                      f"removal of the protected {name} of hole {hole.name} was accepted")
+            return True
+        del data, ent
+        self.check_live("remove_protected")
+        return True
+
+    removal_seen = False
 
     def op_copy_hole(self, op):
         pick = self.pick(self.all_holes(), op["hole"])
@@ -553,6 +611,10 @@ class ConcatRun:
 
     # ---------------------------------------------------------------- checks
     def check_live(self, opkind, where="live"):
+        if self.pid == "C05" and self.gone_uids:
+            self.check_gone(opkind, where)
+            if self.stopped:
+                return
         for grp in self.groups:
             ws = self.ws(grp.world)
             gent = ws.get_entity(uuid.UUID(grp.uid))[0]
@@ -624,6 +686,8 @@ class ConcatRun:
 
     def check_tables(self, grp, gent, opkind, where):
         """Group-wide table view lists exactly the per-hole values in hole (index) order."""
+        if self.pid != "C04":
+            return  # the group-wide table view is a C04 clause only
         by_name: dict = {}
         for hole in grp.holes:
             for table in hole.tables:
